@@ -26,7 +26,7 @@ BASE_PROFILE = {
     'horizon': (20, 60), 'p_split': 0.3,
     'script_rate': 0.6,       # expected stimulus ops per 10 time units per eligible target
     'ops_w': {'fail': 2, 'shutdown': 1, 'restore': 2, 'work_order': 2, 'block': 1.5, 'unblock': 1.5,
-              'add_capacity': 1, 'adjust_budget': 0.7, 'rewire': 0.3, 'rewire_remove': 0.3, 'offset_cycle': 0.7},
+              'add_capacity': 1, 'adjust_budget': 0.7, 'rewire': 0.3, 'rewire_remove': 0.3, 'offset_cycle': 0.7, 'set_cycle': 0.5},
     'p_maintainer': 0.6, 'p_ct_script': 0.2, 'p_value_cb': 0.4, 'p_collect': 0.5,
     'values': [0, 0.5, 1, 1.5, 2.25, 3], 'qualities': [1, 0.5, 0.75, 0.25],
     'p_same_instant': 0.3, 'p_initial_value': 0.0, 'p_poke': 0.0, 'p_trace': 0.0, 'p_scheduler': 0.2,
@@ -385,12 +385,21 @@ class Gen:
             segs = [b - a for a, b in zip(pts, pts[1:]) if b - a > 0]
         spec = {'resources': self.resources, 'items': self.items, 'horizon': segs,
                 'tie': 'prng', 'seed': seed, 'max_events': p['max_events']}
+        fin = [it for it in self.items if it['kind'] == 'source' and it.get('budget') and it['ct'] > 0]
+        aimed_between = None
+        if fin and rng.random() < p.get('p_split_at_spare_part', 0.15):
+            it = rng.choice(fin)
+            t = (it['budget'] + 1) * it['ct']
+            if 0 < t < horizon:
+                segs = [t, horizon - t]
+                aimed_between = {'t': None, 'prio': 5, 'op': 'adjust_budget', 'target': it['id'], 'n': rng.choice([1, 2])}
+        spec['horizon'] = segs
         spec['script'] = self.script(horizon, maint)
-        if len(segs) >= 2 and self.rand_op is not None and rng.random() < p.get('p_between', 0.6):
+        if len(segs) >= 2 and self.rand_op is not None and (aimed_between or rng.random() < p.get('p_between', 0.6)):
             # operations issued by ordinary code BETWEEN two simulate() calls (not from an event)
             spec['between'] = []
             for _ in range(len(segs) - 1):
-                gap = []
+                gap = [aimed_between] if aimed_between else []
                 for _ in range(rng.choice([1, 1, 2, 3])):
                     e = self.rand_op(None)
                     if e is not None:
@@ -420,12 +429,15 @@ class Gen:
         res_procs = [i['id'] for i in self.items if i['kind'] == 'processor' and i.get('res')]
         if res_procs:
             procs = procs + res_procs * 2
-        handlers = [i['id'] for i in self.items if i['kind'] in ('handler', 'processor')]
+        handlers = [i['id'] for i in self.items if i['kind'] in ('handler', 'processor', 'sink')]
         blockable = [i['id'] for i in self.items if i['kind'] in ('handler', 'processor', 'buffer', 'gate',
                                                                     'flow', 'path', 'sink', 'batcher')]
         sources = [i['id'] for i in self.items if i['kind'] == 'source']
         free = [i['id'] for i in self.items if i['kind'] in ('handler', 'processor', 'buffer', 'sink')
                 and i['id'] not in self.in_group]
+        cyclers = [i['id'] for i in self.items if i['kind'] in ('handler', 'processor', 'sink')]
+        late_path_targets = [i['id'] for i in self.items if i['kind'] in ('handler', 'processor', 'buffer')
+                             and i['id'] not in self.in_group]
         ops = []
         n_ops = int(p['script_rate'] * horizon / 10.0 * max(1, len(procs)) * rng.uniform(0.3, 1.5))
         n_ops = min(n_ops, 60)
@@ -439,9 +451,23 @@ class Gen:
             w.pop('add_capacity', None)
         if not handlers:
             w.pop('offset_cycle', None)
+        if not cyclers:
+            w.pop('set_cycle', None)
+        if not late_path_targets or not p.get('p_late_path'):
+            w.pop('late_path', None)
+        elif 'late_path' not in w:
+            w['late_path'] = p['p_late_path']
         if len(free) < 2:
             w.pop('rewire', None)
             w.pop('rewire_remove', None)
+        for it in self.items:
+            # a top-up at exactly the instant at which the exhausted source's spare part is ready (an unblocked
+            # source supplies its k-th part at k * cycle time; the next one is ready one cycle later)
+            if it['kind'] == 'source' and it.get('budget') and it['ct'] > 0 and rng.random() < 0.5:
+                t = (it['budget'] + 1) * it['ct']
+                if t <= horizon:
+                    ops.append({'t': t, 'prio': rng.choice(PRIOS), 'op': 'adjust_budget', 'target': it['id'],
+                                'n': rng.choice([1, 2, 3])})
         for it in self.items:
             if it['kind'] == 'source' and it.get('budget') == 0:
                 ops.append({'t': grid_time(rng, horizon / 2.0), 'prio': rng.choice(PRIOS), 'op': 'adjust_budget',
@@ -470,6 +496,14 @@ class Gen:
             elif op == 'offset_cycle':
                 e['target'] = rng.choice(handlers)
                 e['offset'] = rng.choice([0.5, 1, -0.5, -1, -5, 0.25])
+            elif op == 'set_cycle':
+                e['target'] = rng.choice(cyclers)
+                e['ct'] = rng.choice([0, 0, 0.5, 1, 2, 0.25])
+            elif op == 'late_path':
+                if not late_path_targets:
+                    return None
+                e['target'] = rng.choice(late_path_targets)
+                e['ct'] = rng.choice([0, 0.5, 1])
             elif op == 'create_asset':
                 e['what'] = rng.choice(['maintainer', 'handler'])
                 e['value'] = rng.choice([10, -2.5, 100, 0.5, 0])
